@@ -453,3 +453,35 @@ Proof.
   intros Hm Hc Hg. enter F_rset_find cf_rset_find. rewrite (rf_head_ok _ fuel m rb blk grpcnt sv nv gpv flg Hm Hc) by lia.
   destruct (Z.leb_spec grpcnt 2); [reflexivity|lia].
 Qed.
+
+(* ------------------------------------------------------------------ the tables rset_make builds satisfy rset_tabs_ok *)
+Lemma rset_build_tabs : forall res sb gc,
+  let '(sb', g, sg, gc') := rset_build res sb gc in
+  length g = length res /\ length sg = length res /\ (gc <= gc')%nat /\
+  forall i, (i < length res)%nat ->
+    -1 <= nth i g 0 /\ nth i g 0 < Z.of_nat gc' /\ (0 <= nth i g 0 -> nth i g 0 + Z.of_nat (nth i sg O) < Z.of_nat gc').
+Proof.
+  induction res as [|[p|] res IH]; intros sb gc; cbn [rset_build].
+  - cbn [length]. repeat split; try lia.
+  - specialize (IH ((if Nat.ltb 1 (length sb) then sb ++ [124%N] else sb) ++ [40%N] ++ p ++ [41%N]) (gc + 1 + re_groupcount p)%nat).
+    destruct (rset_build res _ _) as [[[sb' g] sg] gc']. destruct IH as (L1 & L2 & L3 & L4). cbn [length].
+    split; [lia|]. split; [lia|]. split; [lia|]. intros [|i] Hi; cbn [nth]; [lia|]. apply L4. lia.
+  - specialize (IH sb gc). destruct (rset_build res sb gc) as [[[sb' g] sg] gc']. destruct IH as (L1 & L2 & L3 & L4). cbn [length].
+    split; [lia|]. split; [lia|]. split; [lia|]. intros [|i] Hi; cbn [nth]; [lia|]. apply L4. lia.
+Qed.
+
+Lemma rset_make_tabs_ok res flg rs : rset_make res flg = ReSyntax.Ok (Some rs) ->
+  Z.of_nat (length res) <= 2147483647 -> Z.of_nat (rs_grpcnt rs) <= 2147483647 ->
+  rset_tabs_ok (Z.of_nat (rs_n rs)) (Z.of_nat (rs_grpcnt rs)) (rs_grp rs) (rs_setgrpcnt rs) /\ (2 <= rs_grpcnt rs)%nat.
+Proof.
+  intros H Hn Hg. unfold rset_make in H. pose proof (rset_build_tabs res [40%N] 2) as T.
+  destruct (rset_build res [40%N] 2) as [[[sb' g] sg] gc']. destruct T as (L1 & L2 & L3 & L4).
+  destruct (existsb _ (somes res)); [discriminate|].
+  destruct (ReEmit.regcomp (sb' ++ [41%N])) as [[pr|]| |]; try discriminate. cbn [ReSyntax.bind] in H. injection H as <-.
+  cbn [rs_n rs_grp rs_setgrpcnt rs_grpcnt] in *. split; [|exact L3].
+  split; [lia|]. split; [rewrite Nat2Z.id, app_length; lia|]. split; [rewrite Nat2Z.id; lia|]. split.
+  - unfold ints_ok. apply Forall_app. split.
+    + apply Forall_forall. intros x Hx. destruct (In_nth _ _ 0 Hx) as (i & Hi & <-). destruct (L4 i ltac:(lia)) as (A & B & _). lia.
+    + constructor; [lia|constructor].
+  - intros i Hi. unfold nthz. rewrite app_nth1 by lia. destruct (L4 (Z.to_nat i) ltac:(lia)) as (A & B & C). split; [exact B|exact C].
+Qed.
